@@ -439,6 +439,8 @@ pub fn gen_records(rng: &mut Rng, f: &mut FactSet, cfg: &GenCfg) {
                 // text formats' renderer trims it)
                 3 if cfg.names == NameMode::Mixed => format!("{}{name}{}", rng.pick(&[" ", "\t", "", "  "]), rng.pick(&[" ", "\n", "", "\t "])),
                 4 if cfg.names == NameMode::Mixed => (*rng.pick(&[" ", "\t", " \n "])).to_string(),
+                // disease names have no 255-byte limit in any format
+                5 if k != 0 => format!("{name} {}", "long disease name ".repeat(rng.urange(15, 40))),
                 _ => name,
             };
             let mut terms: Vec<u32> = Vec::new();
